@@ -9,6 +9,7 @@ import (
 
 func main() {
 	cli.Main(map[string]func([]string){
-		"C05": c05b.Main,
+		"C05":      c05b.Main,
+		"c05retry": c05b.RetryWorker,
 	}, map[string]xstate.Factory{"syncw": syncw.New, "c05b": c05b.New})
 }
